@@ -4,7 +4,7 @@ from typing import Optional
 from ..core import Report
 from ..fjfront import Stl
 from ..pyfacts import Repo
-from ..stlrules import rule_bitorder, rule_closure, rule_extent, rule_alias, rule_scratch, rule_const_fits, rule_carry_top, rule_jumpword_restore, rule_byte_class
+from ..stlrules import rule_bitorder, rule_closure, rule_extent, rule_alias, rule_scratch, rule_const_fits, rule_carry_top, rule_jumpword_restore, rule_byte_class, rule_input_preserved
 
 FILES = ['flipjump/stl/hex/input.fj', 'flipjump/stl/hex/output.fj', 'flipjump/stl/bit/input.fj', 'flipjump/stl/bit/output.fj',
          'flipjump/stl/bit/casting.fj', 'flipjump/stl/casting.fj', 'flipjump/stl/hex/strings.fj', 'flipjump/stl/runlib.fj']
@@ -23,6 +23,7 @@ def check(rep: Report, repo: Optional[Repo] = None) -> None:
     rule_carry_top(rep, stl, 'C09', FILES, 10)
     rule_jumpword_restore(rep, stl, 'C09', FILES, 3)
     rule_byte_class(rep, stl, 'C09', FILES, 8)
+    rule_input_preserved(rep, stl, 'C09', FILES, 3)
     rep.assumptions.append('footprints assume generic position: distinct symbolic operands of a compile-time `==` / `!=` aliasing test denote distinct variables')
     rep.not_decided.append('decimal/hex conversion arithmetic for all values (value-level); which bytes a parser accepts / stops at / rejects IS decided (BYTE-CLASS)')
 
